@@ -39,7 +39,7 @@ module.exports = {
     'files whose erased output does not align with the input (a C02 violation) are inconclusive for C04 and counted',
     'String.prototype.m.apply(x, nonArrayLiteral) is demanded by the letter of the statement and recorded as known finding D19'
   ],
-  plan (ctx) { return plan(ctx, { quickCorpus: 150 }) },
+  plan (ctx) { return plan(ctx, { quickCorpus: 320, exec: { quickRandom: 2500, quickFormsPerPlacement: 10, thoroughRandom: 30000 } }) },
   minEvaluations (ctx) { return ctx.tier === 'thorough' ? 3000 : 200 },
   async runShard (spec, ctx) {
     const js = jobs(spec, ctx)
